@@ -98,6 +98,7 @@ type attemptScript struct {
 	writes   []int // sizes of successive Write calls
 	setCL0   bool
 	grpcStat string
+	early    bool // 103 Early Hints before the final status
 }
 
 // what the handler saw on one invocation
@@ -179,6 +180,9 @@ func (ex *exchange) handler() http.Handler {
 		}
 		if sc.grpcStat != "" {
 			w.Header().Set("Grpc-Status", sc.grpcStat)
+		}
+		if sc.early {
+			w.WriteHeader(http.StatusEarlyHints)
 		}
 		if sc.status != 0 {
 			w.WriteHeader(sc.status)
